@@ -17,6 +17,8 @@ import (
 	"math/rand"
 	"net/http"
 	"net/http/httptest"
+	"os"
+	"strconv"
 	"sync"
 	"testing"
 	"time"
@@ -245,13 +247,23 @@ const c02ChainRule = "REST chain as built by engine.bindRoutes, observed with ht
 func TestVerifC02Chain(t *testing.T) {
 	m := vk.New(t, "C02", c02ChainRule)
 	defer m.Done()
-	c02RunBatches(m, 0, vk.N(36, 1200), 6, false)
+	c02RunBatches(m, 0, vk.N(60, 1500), 6, false)
 }
 
 func TestVerifC02RaceChain(t *testing.T) {
 	m := vk.New(t, "C02", c02ChainRule+"; racing handlers (writes straddling the deadline): complete handler response or timeout response, never a mixture; concurrent MaxConns gauge; all under the race detector")
 	defer m.Done()
-	c02RunBatches(m, 100000, vk.N(12, 250), 4, true)
+	base, n := 100000, vk.N(16, 250)
+	if v, err := strconv.Atoi(os.Getenv("C02_BATCH_BASE")); err == nil { // the failpoint-widened thorough run explores other batches
+		base = v
+	}
+	if v, err := strconv.Atoi(os.Getenv("C02_BATCHES")); err == nil && v > 0 {
+		n = v
+	}
+	if fp := os.Getenv("GOFAIL_FAILPOINTS"); fp != "" {
+		m.Note("failpoints active: %s", fp)
+	}
+	c02RunBatches(m, base, n, 4, true)
 }
 
 var _ = context.Background
